@@ -93,14 +93,14 @@ BOUNDARY = ["\t", " ", "-", "0", "9", "A", "Z", "[", "\\", "]", "^", "a", "z", "
 
 QUICK = [
     B("ANY"), B("ASCII_HEX_DIGIT"),
-    rng("a", "z"), rng("Z", "a"), rng("\ud7ff", "\ue000"),
-    lit("k"), ("ci", "k"),
+    rng("a", "z"), rng("\ud7ff", "\ue000"),
+    ("ci", "k"),
     ("alt", (rng("a", "c"), lit("-"), lit("]"), lit("^"))),
     ("alt", (lit("["), lit("\\"), rng("x", "z"), rng("y", "~"))),
     ("alt", (B("ASCII_DIGIT"), lit("a"), ("ci", "s"))),
     ("alt", (rng("a", "z"), rng("c", "e"), rng("0", "9"), rng("5", "7"))),   # ranges strictly inside earlier ones
 ]
-QUICK_EXTRA_THOROUGH = [rng("\uffff", "\U00010000"), rng("K", "K"), lit("]"), B("ASCII_ALPHA"), rng("\x7f", "\x80")]
+QUICK_EXTRA_THOROUGH = [rng("Z", "a"), lit("k"), rng("\uffff", "\U00010000"), rng("K", "K"), lit("]"), B("ASCII_ALPHA"), rng("\x7f", "\x80")]
 
 
 ADJ_WINDOWS = [(0x00, 0x100), (0x2100, 0x2140), (0xFF00, 0x10100), (0x10FFF0, 0x110000)]
